@@ -5,7 +5,9 @@ from lib import *
 
 BUILTIN_RULES_USED = ["no-debugger", "eqeqeq", "no-empty", "ban-unused-ignore", "ban-unknown-rule-code"]
 KNOWN_NOT_ENABLED = ["no-var", "no-explicit-any", "prefer-const"]
-UNKNOWN = ["foo", "no-such-rule", "x1", "é-rule", "no_debugger", "No-Debugger", "NO-DEBUGGER", "Foo", "FOO"]
+UNKNOWN = ["foo", "no-such-rule", "x1", "é-rule", "no_debugger", "No-Debugger", "NO-DEBUGGER", "Foo", "FOO",
+           # codes that carry punctuation (they are unknown codes, not noise to be dropped)
+           "no-debugger.", "(no-debugger)", "no-var;", '"no-var"', "no-debugger!", "@scope/rule", "a:b"]
 EXT_CODES = ["ext/a", "ext-b", "zz"]
 WS_SEPS = [" ", "\t", ",", ", ", " ,", " , ", " ", "　", ",,", "  ", ",\t"]
 DEFAULT_FW = "deno-lint-ignore-file"
@@ -173,6 +175,26 @@ def directive_text(rng, word, codes):
     elif r < 0.30 and codes:
         s += rng.choice([" - not a reason", " -x"])
     return s
+
+
+def gen_tiny(rng):
+    """A file that consists of ONE directive comment and nothing else (no blank after `//`, no line break at the end, or both),
+    linted with an external linter that reports a diagnostic without a range: the smallest files a size-keyed shortcut can get wrong."""
+    L = Layout("\n")
+    rules = rng.sample(BUILTIN_RULES_USED, rng.choice([0, 1, 2])) + ["ban-unused-ignore", "ban-unknown-rule-code"][:rng.choice([0, 1, 2])]
+    fw = rng.choice([None, None, "x", "ig"])
+    lw = None
+    decl = rng.sample(EXT_CODES, rng.choice([0, 1]))
+    w = rng.choice([fw or DEFAULT_FW, fw or DEFAULT_FW, DEFAULT_LW])
+    codes = [] if rng.random() < 0.6 else [rng.choice(rules + decl + UNKNOWN[:3] + ["no-debugger"])]
+    L.line_comment(rng.choice(["", "", " "]) + w + ((" " + " ".join(codes)) if codes else ""))
+    if rng.random() < 0.3:
+        L.newline()
+    ext_diags = [{"code": rng.choice(decl + ["no-debugger", "zz"]), "start": None, "end": None, "msg": "ext0"}]
+    if rng.random() < 0.5:
+        ext_diags.append({"code": rng.choice(decl + ["ext/a"]), "start": 0, "end": 0, "msg": "ext1"})
+    return {"src": L.src(), "media": rng.choice(["ts", "js"]), "rules": rules, "fw": fw, "lw": lw, "ext": {"decline": False, "diags": ext_diags, "rules": decl},
+            "parts": L.parts, "comments": L.comments, "first_token": L.first_token, "nls": L.nls, "debuggers": L.debuggers, "ext_diags": ext_diags, "decl": decl}
 
 
 def gen_scenario(rng, force=None):
